@@ -37,7 +37,9 @@ func ReadYamlString(s string) (JsonNode, error) {
 }
 
 func unmarshal(bytes []byte, fn func([]byte, interface{}) error) (JsonNode, error) {
-	if strings.TrimSpace(string(bytes)) == "" {
+	// Only the white space of JSON and YAML is blank. Other Unicode
+	// space characters (e.g. U+00A0) are content.
+	if strings.Trim(string(bytes), " \t\r\n") == "" {
 		return voidNode{}, nil
 	}
 	var v interface{}
